@@ -242,7 +242,7 @@ def _samples(ex, k=3):
             for e in row["e"]:
                 r = ex["requests"][e[1] - 1]
                 if e[2] == 1 and e[0] != row["id"] and r["op"] in ("SignCp", "Revoke") and any(
-                        v["amt"] for v in row["pre"]["inv"].values()):
+                        v["amt"] > 0 for v in row["pre"]["inv"].values()):
                     out.append({"state": row["pre"], "request": r, "accepted": True, "to_state": e[0]})
                     break
             if len(out) >= k:
